@@ -310,7 +310,9 @@ pub fn run(ctx: &Ctx) {
          exactness), plus the shape clauses (single spaces, dotted tail only when improper) and pairwise injectivity; \
          the display procedure itself is observed on the standard output of the built binary \
          running (display 'V) for batches of such values (half of them bare atoms), each chunk read back and compared; \
-         reals additionally through Number::to_string -> Lexer -> read_literal in bulk (thorough: every finite binary32). \
+         reals additionally through Number::to_string -> Lexer -> read_literal in bulk (thorough: every finite binary32); \
+         numbers computed by the interpreter (max min + - * / abs floor floor-quotient floor-remainder exact over the C09 operand generator) print as their read-back prints and are equal? to it; \
+         flat structures of 200-700 elements (dotted pairs, two-element lists, vectors of pairs) in one text. \
          Non-trivial = depth >= 2 with >= 2 number classes, or a real printed with an exponent.",
     );
     let reals = interesting_reals();
@@ -332,6 +334,14 @@ pub fn run(ctx: &Ctx) {
 
     let cases = ctx.tier.pick(50_000, 300_000);
     ctx.random("trees", cases, 200, tree_case);
+
+    // numbers the interpreter computes (not built in Rust): what is printed for them is what is printed for the value
+    // read back from that text, and the two are equal?
+    let computed = ctx.tier.pick(20_000, 200_000);
+    ctx.random("computed-numbers", computed, 12, computed_number_case);
+    // long flat structures (several hundred elements, dotted pairs, vectors) in one text
+    let longs = ctx.tier.pick(60, 400);
+    ctx.random("long-structures", longs, 8, long_structure_case);
 
     // the display procedure itself, through the built binary
     let batches = ctx.tier.pick(600, 5_000);
@@ -362,6 +372,85 @@ thread_local! {
 const SEP: &str = "\n~~rv-sep~~\n";
 
 /// the display *procedure*, observed on the standard output of the built binary running (display 'V) for a batch of values
+pub fn computed_number_case(ch: &mut Chooser) -> Report {
+    let op = *ch.pick(&["max", "min", "+", "-", "*", "/", "abs", "floor", "floor-quotient", "floor-remainder", "exact"]);
+    let arity = match op {
+        "abs" | "floor" | "exact" => 1,
+        "floor-quotient" | "floor-remainder" => 2,
+        _ => 1 + ch.below(3),
+    };
+    let args: Vec<String> = (0..arity).map(|_| crate::numgrid::random_opnd(ch).text).collect();
+    let expr = format!("({} {})", op, args.join(" "));
+    let mut rep = Report::new(expr.clone());
+    rep.label(format!("op:{}", op));
+    let e2 = expr.clone();
+    let r: Result<(String, String, String), String> = EVAL.with(|c| {
+        let mut c = c.borrow_mut();
+        if c.is_none() {
+            *c = Some(sut::Session::stdlib().expect("stdlib"));
+        }
+        let s = c.as_mut().unwrap();
+        let t1 = match s.eval_display(&e2) {
+            Ok(Some(t)) => t,
+            Ok(None) => return Err("no value".to_string()),
+            Err(e) => return Err(e),
+        };
+        let t2 = s.eval_display(&format!("(quote {})", t1)).map(|o| o.unwrap_or_default()).unwrap_or_else(|e| format!("error: {}", e));
+        let same = s.eval_display(&format!("(equal? {} (quote {}))", e2, t1)).map(|o| o.unwrap_or_default()).unwrap_or_else(|e| format!("error: {}", e));
+        Ok((t1, t2, same))
+    });
+    match r {
+        Err(e) => {
+            if e.starts_with("PANIC") {
+                rep.fail(e.clone(), "panic");
+            } else {
+                rep.skipped = Some("operation-raises".into());
+            }
+        }
+        Ok((t1, _, _)) if t1.contains("inf") || t1.contains("NaN") => {
+            // (the property is about finite numbers, as in the other sub-checks)
+            rep.skipped = Some("non-finite-result".into());
+        }
+        Ok((t1, t2, same)) => {
+            rep.nontrivial = t1.contains('/') || t1.contains('.') || t1.contains('e');
+            rep.note = format!("prints {:?}; read back prints {:?}; equal? {}", t1, t2, same);
+            // (NaN is not equal? to itself)
+            if t1 != t2 && !t1.contains("NaN") {
+                rep.fail("computed-number-prints-differently-after-reading-back", format!("{} prints {:?}, which reads back as a value that prints {:?}", expr, t1, t2));
+            } else if same != "#t" && !t1.contains("NaN") {
+                rep.fail("computed-number-not-equal-to-its-printed-form", format!("{} prints {:?}; (equal? value 'text) is {}", expr, t1, same));
+            }
+        }
+    }
+    rep
+}
+
+pub fn long_structure_case(ch: &mut Chooser) -> Report {
+    let n = 200 + ch.below(500);
+    let kind = ch.below(4);
+    // built in Rust, printed, read back as one text
+    let items: Vec<Value<f32>> = (0..n)
+        .map(|i| {
+            let k = Value::Number(Number::Integer(i as i32));
+            match kind {
+                0 => mk_list(vec![Value::Symbol(format!("k{}", i))], Some(k)),
+                1 => mk_list(vec![k.clone(), k], None),
+                2 => Value::Vector(ValueReference::new_immutable(vec![mk_list(vec![k.clone()], Some(k))])),
+                _ => k,
+            }
+        })
+        .collect();
+    let v = if ch.chance(1, 2) { mk_list(items, None) } else { Value::Vector(ValueReference::new_immutable(items)) };
+    with_ns(|ns, _| {
+        let mut rep = judge_value(ns, &v);
+        let mut key = rep.key.clone();
+        sut::truncate_chars(&mut key, 300);
+        rep.key = format!("{} elements of kind {}: {}", n, kind, key);
+        rep.nontrivial = true;
+        rep
+    })
+}
+
 pub fn display_procedure_case(ch: &mut Chooser) -> Report {
     let n = 8 + ch.below(25);
     let values: Vec<Value<f32>> = REALS.with(|r| {
